@@ -89,6 +89,8 @@ class Interp(object):
         self.after_api = None  # called after every eliot API call that returned (C11 acknowledgements)
         self._stdlib = None
         self.tb_without_exception = False
+        self.memory_loggers = False
+        self._memlog = None
         self.late_calls = False
         self.strict_warnings = False
         self.cross_thread = False  # part of the action blocks are entered and run on another thread than the one that created the Action
@@ -116,6 +118,11 @@ class Interp(object):
     def lg(self, nid):
         """Some calls name the production logger explicitly (the API accepts one everywhere); the rest use the default."""
         if self.explicit_loggers and isinstance(nid, int) and nid % 3 == 0:
+            if self.memory_loggers and nid % 4 == 3:
+                # an in-memory test logger as explicit logger: it validates what it is given while the program logs
+                if self._memlog is None:
+                    self._memlog = eliot.MemoryLogger()
+                return (self._memlog,)
             if nid % 2 == 0:
                 return (_TeeLogger(),)  # an application's own ILogger (forwards to the production logger, returns a value)
             return (eliot.Logger(),)
